@@ -385,7 +385,7 @@ package db
 //@   opt results=done
 //@   modifies * -M:S_db_KeyCol -M:S_sqlittle_columnIndex pos halt
 //@   requires [nohalt] !halt
-//@   requires [item] recof(cbrec, ix_payload(cur_tree, pos))
+//@   requires [item] recof(cbrec, ix_payload(cur_tree, pos)) && RECOK(cbrec)
 //@   requires [filter] (eqmode ==> eqls(ikey, ix_payload(cur_tree, pos))) && (rngmode ==> !srch(tokey, ix_payload(cur_tree, pos)))
 //@   requires [mode] ixmode
 //@   ensures [next] !done ==> pos == old(pos) + 1 && !halt
